@@ -14,6 +14,9 @@ TARGETS = {
     "C16": ([ARM], [ARM, "thumbv7neon-unknown-linux-gnueabihf"]),
     "C13": ([H, A64L, ARM], list(extract.ALL_TARGETS)),
     "C02": ([H, A64L, ARM], list(extract.ALL_TARGETS)),
+    "C03": ([H, A64L, ARM], list(extract.ALL_TARGETS)),
+    "C12": ([H, A64L], list(extract.ALL_TARGETS)),
+    "C17": ([H, A64L], list(extract.ALL_TARGETS)),
     "C10": ([H, A64L, ARM], list(extract.ALL_TARGETS)),
     "C15": ([A64L, "aarch64-apple-darwin"], [A64L, "aarch64-apple-darwin", "aarch64-pc-windows-msvc"]),
 }
